@@ -1471,14 +1471,22 @@ def run(ctx):
         gen_all(ctx)
     except Untranslatable as e:
         ctx.tie_broken('py2v:IterSave', str(e))
-    ctx.build()
-    stream_iter(ctx)
-    stream_parse(ctx)
-    stream_crash(ctx)
+    import time
+    timing = ctx.notes.setdefault('timing_s', {})
+
+    def timed(name, fn):
+        t = time.time()
+        fn()
+        timing[name] = round(time.time() - t, 1)
+
+    timed('build', ctx.build)
+    timed('iter', lambda: stream_iter(ctx))
+    timed('parse', lambda: stream_parse(ctx))
+    timed('crash', lambda: stream_crash(ctx))
     if not ctx.quick:
-        stream_kill(ctx)
+        timed('sigkill', lambda: stream_kill(ctx))
     if ctx.broken and not ctx.violations:
-        search_after_break(ctx)
+        timed('search', lambda: search_after_break(ctx))
 
 
 def replay(ctx, path):
